@@ -1,6 +1,6 @@
 use std::fmt::{self, Write};
 
-use codemap::Span;
+use codemap::{CodeMap, Span};
 
 use crate::{ast::CssStmt, error::SassResult, lexer::Lexer, parse::MediaQueryParser};
 
@@ -53,8 +53,8 @@ impl MediaQuery {
         }
     }
 
-    pub fn parse_list(list: &str, span: Span) -> SassResult<Vec<Self>> {
-        let toks = Lexer::new_from_string(list, span);
+    pub fn parse_list(list: &str, span: Span, map: &CodeMap) -> SassResult<Vec<Self>> {
+        let toks = Lexer::new_from_string(list, span, map);
 
         MediaQueryParser::new(toks).parse()
     }
